@@ -41,8 +41,8 @@ class C09(Check):
                     ops.append(["calibrate_crash", rng.randint(1, 2), rng.randint(0, 3)])
                     ops.append(["restore"])
             ops.append(["calibrate", rng.randint(1, 5)])
-        env = {"folder": folder, "n_jobs": 1, "sched": {"mode": rng.choice(["random", "pct", "mainfirst", "othersfirst"]),
-                                                        "seed": rng.randrange(2 ** 31), "p_line": 0.0}}
+        env = {"folder": folder, "n_jobs": 1}
+        env["sched"], env["trace_lines"] = calsim.gen_sched(rng, rl)
         return {"engine": "calsim", "config": cfg, "env": env, "ops": ops, "sim_seed": rng.randrange(2 ** 31),
                 "ctor_probe": rng.random() < 0.2}
 
